@@ -87,6 +87,40 @@ Definition spec_dataset (c : cmd) (r : resp) (post : state) : bool :=
   | _ => true
   end.
 
+(* ---- after an accepted RIB change the FIB agrees with the RIB: every prefix with routes at or below the changed prefix
+   (after a face removal: every prefix with routes) holds exactly the flattened next hops of the new RIB; a prefix without
+   routes keeps its next hops or loses them; prefixes outside the scope keep theirs. Next-hop lists compared as sets. ---- *)
+Definition hops_same (a b : list (N * N)) : bool :=
+  forallb (fun x => existsb (nh_eqb x) b) a && forallb (fun x => existsb (nh_eqb x) a) b.
+Definition is_nil {A} (l : list A) : bool := match l with [] => true | _ => false end.
+Definition spec_fib_after_rib (scope : option name) (rib' : ribT) (pre post : fibT) : bool :=
+  forallb (fun n =>
+      if in_scope scope n then
+        match rib_routes rib' n with
+        | [] => hops_same (fib_hops post n) (fib_hops pre n) || is_nil (fib_hops post n)
+        | _ => hops_same (fib_hops post n) (fib_want rib' n)
+        end
+      else hops_same (fib_hops post n) (fib_hops pre n))
+    (map fst rib' ++ map fst pre ++ map fst post).
+(* which RIB change an accepted command made: register/unregister of [nm], or a face removal *)
+Definition rib_change_scope (pre : state) (c : cmd) (r : resp) : option (option name) :=
+  if negb (accepted r) then None else
+  match nth_error (c_name c) plen, nth_error (c_name c) (plen + 1), r with
+  | Some m, Some v, RCtl _ echo _ =>
+      if comp_is m w_rib && (comp_is v [114;101;103;105;115;116;101;114] || comp_is v [117;110;114;101;103;105;115;116;101;114]) then
+        match a_name echo with Some nm => Some (Some nm) | None => None end
+      else if comp_is m w_faces && comp_is v [100;101;115;116;114;111;121] then
+        (* FaceTable.Remove (hence Rib.CleanUpFace) runs only for a face that is in the table *)
+        match a_face echo with Some id => if face_exists pre id then Some None else None | None => None end
+      else None
+  | _, _, _ => None
+  end.
+Definition spec_rib_fib (pre : state) (c : cmd) (r : resp) (post : state) : bool :=
+  match rib_change_scope pre c r with
+  | Some scope => spec_fib_after_rib scope (s_rib post) (s_fib pre) (s_fib post)
+  | None => true
+  end.
+
 (* ---- a dataset request is answered (the pinned code answers only when the dataset fits one segment) ---- *)
 Definition dataset_verbs : list (bytes * bytes) :=
   [(w_rib, w_list); (w_fib, w_list); (w_strategy_choice, w_list); (w_cs, w_info); (w_faces, w_list); (w_status, w_general)].
